@@ -23,3 +23,77 @@ Qed.
 Lemma ptr_cast_address vol s x :
   sandbox_ptr_cast vol s x = (if vol then unsandbox s x else x) /\ sandbox_ptr_cast false s 0 = 0 /\ sandbox_ptr_cast true s 0 = 0.
 Proof. repeat split. Qed.
+
+(* ---------- casts of cells, from the bytes of sandbox memory ---------- *)
+(* the memory-level cast IS the value-level cast (the one the correspondence run ties to the
+   headers) applied to what the cell's bytes denote in the sandbox type: every memory, every
+   bit pattern *)
+Lemma static_cast_mem_refines a to from sk addr m :
+  sbx_equiv a from = Some sk ->
+  sandbox_static_cast_mem a to from addr m =
+  sandbox_static_cast a true to from (decode sk (read m addr (nbytes sk))).
+Proof.
+  intros He. unfold sandbox_static_cast_mem, sandbox_static_cast, load_int, to_app. rewrite He. reflexivity.
+Qed.
+
+(* … it holds exactly static_cast<to> of the value the bytes denote, or aborts exactly when the
+   operand's own application type cannot hold that value (C06); nothing else *)
+Lemma static_cast_mem_spec a to from sk addr m :
+  abi_ok a = true -> sbx_equiv a from = Some sk -> sk <> IBool ->
+  let v := decode sk (read m addr (nbytes sk)) in
+  sandbox_static_cast_mem a to from addr m =
+  Some (if in_range from v then Ok (wrap to v) else Abort).
+Proof.
+  intros Ha He Hb v. unfold sandbox_static_cast_mem.
+  rewrite (load_int_decodes a from addr m sk Ha He Hb). fold v. unfold conv_spec.
+  destruct (in_range from v); reflexivity.
+Qed.
+
+(* … and depends on no byte outside the cell *)
+Lemma static_cast_mem_local a to from sk addr m1 m2 :
+  sbx_equiv a from = Some sk ->
+  (forall y, addr <= y < addr + size sk -> m1 y = m2 y) ->
+  sandbox_static_cast_mem a to from addr m1 = sandbox_static_cast_mem a to from addr m2.
+Proof.
+  intros He H. unfold sandbox_static_cast_mem. rewrite (load_int_local a from addr m1 m2 sk He H). reflexivity.
+Qed.
+
+(* a cast after a store of a representable value returns static_cast<to> of that value *)
+Lemma static_cast_mem_after_store a to from addr v m m' :
+  abi_ok a = true -> in_range from v = true -> store_int a from addr v m = Some (Ok m') ->
+  sandbox_static_cast_mem a to from addr m' = Some (Ok (wrap to v)).
+Proof.
+  intros Ha Hr Hs. unfold sandbox_static_cast_mem. rewrite (load_after_store a from addr v m m' Ha Hr Hs). reflexivity.
+Qed.
+
+(* pointer casts of a pointer cell: the designated address is the one a plain load of the cell
+   designates (same translation path), hence null or inside the sandbox whatever the cell holds
+   below the sandbox size (taint is kept: the result is again a checked tainted pointer) *)
+Lemma ptr_cast_mem_is_load w s addr m : sandbox_ptr_cast_mem w s addr m = load_ptr w s addr m.
+Proof. reflexivity. Qed.
+
+Lemma ptr_cast_mem_inv w s addr m :
+  region_ok s -> 0 <= load_bits w addr m < rsize s -> ptr_inv s (sandbox_ptr_cast_mem w s addr m).
+Proof. intros Hs Hr. unfold sandbox_ptr_cast_mem, sandbox_ptr_cast. apply unsandbox_inv; assumption. Qed.
+
+Lemma ptr_cast_mem_roundtrip w s addr p m :
+  0 <= w -> 0 <= sandbox_ptr s p < 256 ^ w ->
+  sandbox_ptr_cast_mem w s addr (store_ptr w s addr p m) = unsandbox s (sandbox_ptr s p).
+Proof. intros Hw Hr. rewrite ptr_cast_mem_is_load. apply load_store_ptr; assumption. Qed.
+
+(* ---------- opaque: every byte image, and what crosses the boundary ---------- *)
+Lemma opaque_roundtrip_image (img : list Z) : from_opaque_img (to_opaque_img img) = img.
+Proof. reflexivity. Qed.
+
+(* an opaque argument / callback result crosses exactly as the tainted value it came from *)
+Lemma opaque_crosses_as_tainted a k v : in_range k v = true ->
+  opaque_to_sbx a k (to_opaque_img (image k v)) = to_sbx a k v.
+Proof.
+  intros H. unfold opaque_to_sbx, from_opaque_img, to_opaque_img, image. rewrite (decode_encode k v H). reflexivity.
+Qed.
+
+(* non-vacuity: a 4-byte cell holding 0xFFFFFFFF read as long under the LP32 guest ABI and cast to
+   unsigned short *)
+Example static_cast_mem_example :
+  sandbox_static_cast_mem abi_lp32 IUShort ILong 16 (fun y => if (16 <=? y) && (y <? 20) then 255 else 7) = Some (Ok 65535).
+Proof. vm_compute. reflexivity. Qed.
